@@ -30,12 +30,14 @@ def locs_from_model(m):
     """every group of symbols *_first/_last/_strand/_defect is one location"""
     groups = {}
     for k, v in m.items():
+        if k.startswith(("g!", "sk!")):
+            continue
         for suf in ("_first", "_last", "_strand", "_defect"):
             if k.endswith(suf) and isinstance(v, int):
                 groups.setdefault(k[: -len(suf)], {})[suf] = v
     locs = []
     for g, d in sorted(groups.items()):
-        if "_first" in d and "_last" in d:
+        if "_first" in d and "_last" in d and d["_first"] <= d["_last"]:
             locs.append(Location(d["_first"], d["_last"], strand_of(d.get("_strand", 1)),
                                  defect_of(d.get("_defect", 0))))
     return locs
